@@ -470,6 +470,29 @@ var vC16Cases = []vC16Case{
 		}
 		return out
 	}},
+	{".Individuals | .Name | .GivenName = .Surname", func(d *gedcom.Document, n int, lit string) interface{} {
+		// both sides are evaluated on the current element
+		out := []bool{}
+		for _, i := range d.Individuals() {
+			order, decided := vC16Reference(i.Name().GivenName(), i.Name().Surname())
+			if !decided {
+				VsAssume(false)
+			}
+			out = append(out, order == 0)
+		}
+		return out
+	}},
+	{".Individuals | .Name | .Surname >= .GivenName", func(d *gedcom.Document, n int, lit string) interface{} {
+		out := []bool{}
+		for _, i := range d.Individuals() {
+			order, decided := vC16Reference(i.Name().Surname(), i.Name().GivenName())
+			if !decided {
+				VsAssume(false)
+			}
+			out = append(out, order >= 0)
+		}
+		return out
+	}},
 	{".Individuals | NodesWithTagPath(\"BIRT\", \"DATE\")", func(d *gedcom.Document, n int, lit string) interface{} {
 		out := gedcom.Nodes{}
 		for _, i := range d.Individuals() {
